@@ -54,6 +54,8 @@ pub struct HostSettings {
     pub run_tests: bool,
     pub run_import_tests: bool,
     pub execution_limit_ns: Option<u64>,
+    /// decides the order in which the builder helpers are applied
+    pub builder_order_seed: u64,
 }
 
 impl Default for HostSettings {
@@ -62,6 +64,7 @@ impl Default for HostSettings {
             run_tests: true,
             run_import_tests: true,
             execution_limit_ns: None,
+            builder_order_seed: 0,
         }
     }
 }
@@ -74,14 +77,29 @@ impl Host {
     pub fn new(settings: HostSettings) -> Self {
         let stdout = SimFile::new("sim_stdout");
         let stderr = SimFile::new("sim_stderr");
-        let mut ks = KotoSettings::default()
-            .with_stdout(stdout.clone())
-            .with_stderr(stderr.clone())
-            .with_stdin(SimFile::new("sim_stdin"));
+        // the settings are assembled with the public builder helpers, in an order chosen by the
+        // caller's seed (configuration swarm): no setting may depend on where in the chain
+        // another one was given
+        let mut ks = KotoSettings::default();
         ks.run_tests = settings.run_tests;
         ks.vm_settings.run_import_tests = settings.run_import_tests;
-        if let Some(ns) = settings.execution_limit_ns {
-            ks.vm_settings.execution_limit = Some(Duration::from_nanos(ns));
+        let mut steps: Vec<u8> = vec![0, 1, 2, 3, 4];
+        let mut x = settings.builder_order_seed;
+        for i in (1..steps.len()).rev() {
+            x = crate::rng::splitmix64(x);
+            steps.swap(i, (x % (i as u64 + 1)) as usize);
+        }
+        for st in steps {
+            ks = match st {
+                0 => ks.with_stdout(stdout.clone()),
+                1 => ks.with_stderr(stderr.clone()),
+                2 => ks.with_stdin(SimFile::new("sim_stdin")),
+                3 => match settings.execution_limit_ns {
+                    Some(ns) => ks.with_execution_limit(Duration::from_nanos(ns)),
+                    None => ks,
+                },
+                _ => ks.with_args(["sim"]),
+            };
         }
         let koto = Koto::with_settings(ks);
         let log: SharedLog = Default::default();
